@@ -9,8 +9,9 @@
 
     * it never writes to an existing cell — containers are rebuilt as NEW cells
       (`obj.__class__(generator)`), strings that change are NEW `str` cells;
-    * non-string leaves (None, bool, int, float, bytes, arbitrary objects) are
-      returned BY REFERENCE (`return obj`);
+    * non-string leaves (None, bool, int, float, bytes, arbitrary objects) and
+      the mutable binary leaf `bytearray` (`Cell.mbytes`) are returned BY
+      REFERENCE (`return obj` / `new = obj`);
     * a brace-free string is returned by reference (`Formatter.parse` yields the
       whole string as its single literal, CPython returns the same object);
     * the `memo` dict keyed by `id(obj)` is threaded through the children of a
@@ -38,6 +39,7 @@ abbrev Ref := Nat
 
 inductive Cell where
   | leaf (v : Val)                       -- non-string leaf: none / bool / int / flt / bytes / obj
+  | mbytes (b : String)                  -- bytearray: a MUTABLE non-string leaf (hex text), unhashable
   | str (s : String)
   | list (tag : Nat) (rs : List Ref)
   | tuple (tag : Nat) (rs : List Ref)
@@ -68,6 +70,12 @@ def isLeafVal : Val → Bool
   | .none | .bool _ | .int _ | .flt _ _ | .bytes _ | .obj _ => true
   | _ => false
 
+/-- The object is a non-string leaf: it has no members, `_get_formatted_iterable` hands it back as
+    the same object and never writes a memo entry for it (immutable `leaf`, or `bytearray`). -/
+def isLeafCell : Cell → Bool
+  | .leaf _ | .mbytes _ => true
+  | _ => false
+
 def mapO {α β} (f : α → Option β) : List α → Option (List β)
   | [] => some []
   | x :: xs => match f x with
@@ -83,6 +91,7 @@ def readVal : Nat → Heap → Ref → Option Val
     match h[r]? with
     | none => none
     | some (.leaf v) => some v
+    | some (.mbytes b) => some (.bytes b)        -- the tree reading has one kind of binary leaf
     | some (.str s) => some (.str s)
     | some (.list _ rs) => (mapO (readVal fuel h) rs).map .list
     | some (.tuple _ rs) => (mapO (readVal fuel h) rs).map .tuple
@@ -193,6 +202,7 @@ def fmtH : Nat → HCtx → Bool → Ref → St → Except Exc (Ref × St)
       | some cell =>
         match cell with
         | .leaf _ => .ok (r, st)                       -- bytes: `new = obj`; others: `return obj`
+        | .mbytes _ => .ok (r, st)                     -- bytearray: `new = obj`, never memoised
         | .sic p => .ok (p, { st with memo := memoIf st.memo r p })
         | .pyName n =>
           match HCtx.get? ctx n with
